@@ -5,17 +5,26 @@ ID = "C04"
 LEVEL = "exploration"
 RUNS = {"quick": 6000, "thorough": 100000}
 WALL_CAP = {"quick": 200, "thorough": 3600}
-RULE = ("one case = one of eight machine topologies (t1 trough+coil plunger, t2 +two-ball lock, t3 +entrance-counted VUK, t4 "
-        "mechanical plunger, t5 +ball save, t6 two independent feeds, t7 three-stage chain, t8 two-ball launcher) with 1-4 balls, a swarm-drawn eject "
-        "failure rate and scheduler knobs, and a history of game actions (start, drain, playfield hit, multiball add, lock "
-        "shot/release, manual plunge, end game) with tape-chosen timing; the physical world (PinWorld) answers coil "
-        "commands with success / fall-back / stuck / late arrival. Non-trivial = reached a probe (drain, multiball add, "
-        "physical eject failure, lock shot, ...); distinct = distinct sequence of observed event kinds")
+RULE = ("one case = one of eleven machine topologies (t1 trough+coil plunger, t2 +two-ball lock and a multiball with ball_locks, "
+        "t3 +entrance-counted VUK, t4 mechanical plunger (optionally home-tagged with a ball in the lane at boot, weak plunges), "
+        "t5 +ball saves (machine-wide, or mode-scoped with delayed eject), t6 two independent feeds, t7 three-stage chain with "
+        "requests for the staging device and balls straying to the playfield, t8 two-ball launcher, t9 outhole + "
+        "entrance-counted trough whose last ball rests on the entrance switch, t10 jam-switch trough with shaken balls and "
+        "reorder pulses) with 1-4 balls, a swarm-drawn eject failure rate and scheduler knobs, and a history of game "
+        "actions (start, drain, pairs of drains, playfield hit, multiball add, requests for several balls, lock shot/release, "
+        "manual plunge, lane return, mode start/stop, end game) with tape-chosen timing, plus reactive requests a moment "
+        "after a kick and handlers holding the trough's eject-attempt queue event; the physical world (PinWorld) answers coil "
+        "commands with success / fall-back / stuck / late arrival / shaken / stray. Non-trivial = reached a probe (drain, "
+        "multiball add, physical eject failure, lock shot, ...); distinct = distinct sequence of observed event kinds")
 PROBES = common.PROBES
 REAL = ["mpf.devices.ball_device.* (counters, incoming/outgoing handlers, ejectors)", "mpf.devices.playfield", "mpf.core.ball_controller",
         "mpf.modes.game", "mpf.core.switch_controller", "mpf.devices.driver", "MachineController boot"]
 STUBS = ["physical machine (sim/pinworld.py)", "platform leaf objects (SimPlatform/SimDriver)", "event loop/clock (SimLoop)"]
-ASSUMPTIONS = ["PinWorld rules (module docstring): no teleporting, one ball per switch, full devices bounce balls back, "
+ASSUMPTIONS = [
+               "further named relaxations (DESIGN.md, Corrections, C04/C05 items 5-19): arrival, identity, settle and re-plunge "
+               "ambiguity, skip assumption of mechanical lanes, playfield confirmation, entrance arrival during the device's own "
+               "eject, starved devices, requests only while a ball is in progress",
+               "PinWorld rules (module docstring): no teleporting, one ball per switch, full devices bounce balls back, "
                "eject outcomes limited to success/fall-back/stuck/late (entrance-counted devices: success/late only, the "
                "others are unobservable for any controller)",
                "host stalls are limited to 0.2 s here (MPF's ball logic is built on 0.5 s debounce times and 2-3 s timeouts)",
